@@ -107,8 +107,16 @@ func c10ErrText(err error) string {
 
 func VerifHarness_C10_Load() {
 	path := verifFSRoot() + "/db/commands.yml"
-	state := verifIntRange("state", 0, 3)
+	state := verifIntRange("state", 0, 4)
 	n := 0
+	if state == 4 { // no YAML document at all: the empty list, spelled as an empty or comment-only file
+		if verifBool("commentOnly") {
+			verifFSPutBytes(path, []byte("# commands go here\n"))
+		} else {
+			verifFSPutBytes(path, nil)
+		}
+		state = 3
+	}
 	switch state {
 	case 0: // missing
 	case 1:
@@ -121,7 +129,11 @@ func VerifHarness_C10_Load() {
 		for i := 0; i < n; i++ {
 			cmds = append(cmds, Command{Command: "c" + string(rune('a'+i)) + " x", Description: "desc " + string(rune('a'+i)), Keywords: []string{"kw"}})
 		}
-		verifFSPutDoc(path, "yaml", cmds)
+		if !verifFSExists(path) {
+			verifFSPutDoc(path, "yaml", cmds)
+		} else {
+			n = 0
+		}
 	}
 	db, err := LoadDatabase(path)
 	switch state {
